@@ -1,11 +1,15 @@
 package envelope
 
 import (
+	"bytes"
 	"crypto/sha256"
+	"errors"
 	"hash"
 	"io"
 
 	"github.com/ipfs/go-cid"
+	"github.com/ipld/go-ipld-prime"
+	"github.com/ipld/go-ipld-prime/codec/dagcbor"
 	"github.com/multiformats/go-multibase"
 	"github.com/multiformats/go-multicodec"
 	"github.com/multiformats/go-multihash"
@@ -27,6 +31,30 @@ func CIDFromBytes(b []byte) (cid.Cid, error) {
 		MhType:   multihash.SHA2_256,
 		MhLength: 0,
 	}.Sum(b)
+}
+
+// ErrNotCanonical is returned when sealed data is not the canonical DAG-CBOR
+// encoding of what it decodes to.
+var ErrNotCanonical = errors.New("sealed token is not canonically encoded")
+
+// VerifyCanonical checks that b is the canonical DAG-CBOR encoding of the
+// data it carries. The decoder is lenient (non-minimal or indefinite lengths,
+// unsorted map keys ...) and the signature covers the re-encoded payload, not
+// the received bytes: without this check, the same signed token could be
+// accepted under several byte strings, hence several CIDs.
+func VerifyCanonical(b []byte) error {
+	node, err := ipld.Decode(b, dagcbor.Decode)
+	if err != nil {
+		return err
+	}
+	canonical, err := ipld.Encode(node, dagcbor.Encode)
+	if err != nil {
+		return err
+	}
+	if !bytes.Equal(canonical, b) {
+		return ErrNotCanonical
+	}
+	return nil
 }
 
 var _ io.Reader = (*CIDReader)(nil)
